@@ -324,7 +324,7 @@ fn plan_c16(thorough: bool) -> Plan {
     cases.extend(pfx_family("noproof"));
     cases.extend(crate::plans2::tombstone_family("noproof", thorough));
     set_all(&mut cases, "image", json!("c16"));
-    for (h, t, b) in crash_histories(false) {
+    for (h, t, b) in crash_histories(false).into_iter().chain(root_layer_histories(false)) {
         if b >= 3 || h["seed"] != "empty" {
             cases.push(json!({"mode": "c03", "hist": h, "target": t, "bound": b, "cap": 4, "nested": false, "decode": true}));
         }
@@ -348,7 +348,7 @@ fn plan_c19(thorough: bool) -> Plan {
     let mut cases = structural_family(thorough, if thorough { &[64, 4096, 64000] } else { &[64, 4096] });
     cases.extend(crate::plans2::tombstone_family("noproof", thorough));
     set_all(&mut cases, "image", json!("c19"));
-    for (h, t, b) in crash_histories(false) {
+    for (h, t, b) in crash_histories(false).into_iter().chain(root_layer_histories(false)) {
         if b >= 3 || h["seed"] != "empty" {
             cases.push(json!({"mode": "c03", "hist": h, "target": t, "bound": b, "cap": 4, "nested": false, "decode": true, "occupancy": true}));
         }
@@ -528,6 +528,44 @@ pub fn crash_histories(thorough: bool) -> Vec<(Value, usize, u64)> {
     out
 }
 
+
+/// The first two layers of the root merkle page: a first commit writes any non-empty subset of four
+/// keys with the leading bits 00, 01, 10, 11; the traced second commit toggles any non-empty subset
+/// (present keys deleted, absent ones written) — sub-tries of the root page emptied while their
+/// sibling is empty, filled or being filled in the same commit (the page diff logged to the WAL
+/// must carry every zeroed node). Thorough: also eight keys (three leading bits), first commit a
+/// pair, second commit toggling ≤2 keys.
+pub fn root_layer_histories(thorough: bool) -> Vec<(Value, usize, u64)> {
+    let cfg = cfg_crash();
+    let mut out = vec![];
+    let w = |k: u64, s: u64| json!([k, "w", s]);
+    let del = |k: u64| json!([k, "d"]);
+    for first in 1u32..16 {
+        for toggle in 1u32..16 {
+            let c1: Vec<Value> = (0..4).filter(|i| first >> i & 1 == 1).map(|i| w(i, 1)).collect();
+            let c2: Vec<Value> = (0..4).filter(|i| toggle >> i & 1 == 1).map(|i| if first >> i & 1 == 1 { del(i) } else { w(i, 2) }).collect();
+            out.push((hist("empty", vec!["Q4"], &cfg, vec![json!({"c": c1}), json!({"c": c2})]), 1, 3));
+        }
+    }
+    if thorough {
+        for a in 0u64..8 {
+            for b in a + 1..8 {
+                for x in 0u64..8 {
+                    for y in x..8 {
+                        let present = |k: u64| k == a || k == b;
+                        let mut c2 = vec![if present(x) { del(x) } else { w(x, 2) }];
+                        if y != x {
+                            c2.push(if present(y) { del(y) } else { w(y, 2) });
+                        }
+                        out.push((hist("empty", vec!["Q8"], &cfg, vec![json!({"c": [w(a, 1), w(b, 1)]}), json!({"c": c2})]), 1, 3));
+                    }
+                }
+            }
+        }
+    }
+    out
+}
+
 pub fn crash_plan(prop: &str, tier: &str) -> Plan {
     let thorough = tier == "thorough";
     let hs = crash_histories(thorough);
@@ -539,6 +577,9 @@ pub fn crash_plan(prop: &str, tier: &str) -> Plan {
         _ => panic!("no crash plan for {prop}"),
     };
     let mut hs = hs;
+    let n_general = hs.len();
+    hs.extend(root_layer_histories(thorough));
+    let n_root_layer = hs.len() - n_general;
     if prop == "C17" {
         // the monitor only needs the trace (no image enumeration), so it can afford operations with
         // hundreds of page writes: a free list spanning two list pages (1280 pages released by
@@ -564,12 +605,19 @@ pub fn crash_plan(prop: &str, tier: &str) -> Plan {
             hs.push((hist("ovf", uni.clone(), &cfg, ops), t, 3));
         }
     }
+    let _ = n_root_layer;
     let mut cases: Vec<Value> = hs
         .into_iter()
-        .flat_map(|(h, t, b)| {
+        .enumerate()
+        .flat_map(|(i, (h, t, b))| {
+            // (the root-layer family under the lazy task schedule only in the thorough tier)
+            let root_layer = i >= n_general && i < n_general + n_root_layer;
             // every traced operation twice: with the background tasks of the sync pipeline running
             // as they come, and with each of them held back until somebody waits for it
-            [false, true].map(|lazy| json!({"mode": mode, "hist": h, "target": t, "bound": b, "lazy": lazy, "cap": if thorough { 8 } else { 5 }, "nested": thorough || !lazy, "max_per_instant": if thorough { 96 } else { 40 }}))
+            [false, true]
+                .into_iter()
+                .filter(move |lazy| !(*lazy && root_layer && !thorough))
+                .map(move |lazy| json!({"mode": mode, "hist": h, "target": t, "bound": b, "lazy": lazy, "cap": if thorough { 8 } else { 5 }, "nested": thorough || !lazy, "max_per_instant": if thorough { 96 } else { 40 }}))
         })
         .collect();
     if prop == "C03" {
